@@ -1808,6 +1808,12 @@ class Body(RSTState):
                     "Line block ends without a blank line.", line=lineno + 1
                 )
             )
+        # Inline markup can leave system messages inside the block (e.g. a duplicate
+        # target name): they belong next to the block, not among its lines.
+        for child in block.children[:]:
+            if not isinstance(child, nodes.line):
+                block.remove(child)
+                self.parent.append(child)
         if len(block):
             if block[0].indent is None:
                 block[0].indent = 0
